@@ -120,11 +120,18 @@ def run(ctx: Context) -> None:
                   of, grouping or outer, construct='groups[frozenset(variable.dims) - {depth dimension} - non spatial dimensions].append(name)')
         inner = mo.stmt('for $sp2, $names in $groups.items():\n    ...', within=outer) if grouping is not None else None
         ctx.need('R12.3', inner is not None, "every group of variables is reduced in turn", of)
+        # the example is a variable that can show missing values: the first floating point variable of the group
+        pick_ex = mo.stmt(f"$exname = next(($en for $en in $names if {ds}.data_vars[$en].dtype.kind in $$kinds), $names[0])", within=inner)
+        kinds = const_value(mo.enodes.get('kinds'), None) if pick_ex is not None else None
+        ctx.check('R12.3', pick_ex is not None and isinstance(kinds, str) and set(kinds) <= set('fc') and 'f' in kinds,
+                  "the floor is searched in a variable that can hold missing values (a floating point member of the group; an integer variable never shows a floor)", of,
+                  pick_ex or inner, construct=f"example name: {norm_text(pick_ex.value)[:110] if pick_ex is not None else 'the first variable of the group, whatever its type'}")
         ex = None
-        for alt in (f"$ex = {ds}.data_vars[$names[0]].isel({{$k: 0 for $k in $nsd}}, drop=True, missing_dims='ignore')",
-                    f"$ex = {ds}[$names[0]].isel({{$k: 0 for $k in $nsd}}, drop=True, missing_dims='ignore')"):
-            ex = ex or mo.stmt(alt, within=inner)
-        ctx.check('R12.3', ex is not None, "the example variable is the group's first, reduced to index 0 of the non-spatial dimensions only", of, ex or inner,
+        if pick_ex is not None:
+            for alt in (f"$ex = {ds}.data_vars[$exname].isel({{$k: 0 for $k in $nsd}}, drop=True, missing_dims='ignore')",
+                        f"$ex = {ds}[$exname].isel({{$k: 0 for $k in $nsd}}, drop=True, missing_dims='ignore')"):
+                ex = ex or mo.stmt(alt, within=inner)
+        ctx.check('R12.3', ex is not None, "the example variable is reduced to index 0 of the non-spatial dimensions only", of, ex or inner,
                   construct=f"example = {norm_text(ex.value)[:120] if ex is not None else 'not recognised'}")
         fc = mo.stmt('$floor = _find_ocean_floor_indexes($ex, $dd)', within=inner) if ex is not None else None
         finds = [c for c in calls_in(of) if callee(ctx, of, c) == f"{DEPTH}._find_ocean_floor_indexes"]
@@ -133,7 +140,7 @@ def run(ctx: Context) -> None:
         pick = mo.stmt("$sub = $sub.isel({$dd: $floor}, drop=True, missing_dims='ignore')", within=inner) if sub is not None and fc is not None else None
         ctx.check('R12.3', pick is not None, "all variables of the group are picked at the one floor array along this depth dimension", of,
                   pick or inner, construct='dataset_subset.isel({depth_dimension: ocean_floor_indexes}, drop=True, ...)')
-        dropc = mo.stmt('$sub = $sub.drop_vars([$n for $n, $c in $sub.coords.items() if $c.dims == ($dd,)])', within=inner) if sub is not None else None
+        dropc = mo.stmt('$sub = $sub.drop_vars([$cn for $cn, $cv in $sub.coords.items() if $cv.dims == ($dd,)])', within=inner) if sub is not None else None
         ctx.check('R12.3', dropc is not None and pick is not None and dropc.lineno < pick.lineno,
                   "coordinates lying only on this depth dimension are dropped from the group before the pick", of, dropc or inner)
         merge = mo.stmt(f"{ds} = $sub.merge({ds}, compat='override')", within=inner) if pick is not None else None
@@ -193,6 +200,7 @@ from ..variants import V  # noqa: E402
 _D = 'src/emsarray/operations/depth.py'
 _B = 'src/emsarray/conventions/_base.py'
 VARIANTS = [
+    V('C12', 'example-first-variable', _D, "            data_array = dataset.data_vars[example_name].isel(", "            data_array = dataset.data_vars[variable_names[0]].isel(", 'R12.3'),
     V('C12', 'deep-to-shallow-true', _D, "        positive_down=True, deep_to_shallow=False)", "        positive_down=True, deep_to_shallow=True)", 'R12.1'),
     V('C12', 'argmin', _D, "    max_depth_indexes = depth_indexes.argmax(str(depth_dimension))", "    max_depth_indexes = depth_indexes.argmin(str(depth_dimension))", 'R12.2'),
     V('C12', 'no-cumsum', _D, "    depth_indexes = (data_array * 0 + 1).cumsum(str(depth_dimension))", "    depth_indexes = (data_array * 0 + 1)", 'R12.2'),
@@ -201,7 +209,7 @@ VARIANTS = [
     V('C12', 'isel-other-dimension', _D, "                {depth_dimension: ocean_floor_indexes},", "                {depth_dimensions[0]: ocean_floor_indexes},", 'R12.3'),
     V('C12', 'merge-reversed', _D, "            dataset = dataset_subset.merge(dataset, compat='override')", "            dataset = dataset.merge(dataset_subset, compat='override')", 'R12.3'),
     V('C12', 'depth-dims-not-dropped', _D, "    dataset = dataset.drop_dims(depth_dimensions, errors='ignore')\n", "", 'R12.3'),
-    V('C12', 'example-last-variable', _D, "            data_array = dataset.data_vars[variable_names[0]].isel(\n                {name: 0 for name in non_spatial_dimensions},", "            data_array = dataset.data_vars[variable_names[0]].isel(\n                {name: -1 for name in non_spatial_dimensions},", 'R12.3'),
+    V('C12', 'example-last-variable', _D, "            data_array = dataset.data_vars[example_name].isel(\n                {name: 0 for name in non_spatial_dimensions},", "            data_array = dataset.data_vars[example_name].isel(\n                {name: -1 for name in non_spatial_dimensions},", 'R12.3'),
     V('C12', 'time-unguarded-again', _B, "        non_spatial_variables = []\n        try:\n            non_spatial_variables.append(self.time_coordinate)\n        except NoSuchCoordinateError:\n            pass\n", "        non_spatial_variables = [self.time_coordinate]\n", 'R12.4'),
     V('C12', 'wrapper-one-depth', _B, "            self.dataset, self.depth_coordinates,\n            non_spatial_variables=non_spatial_variables)", "            self.dataset, [self.depth_coordinate],\n            non_spatial_variables=non_spatial_variables)", 'R12.3'),
     # benign
